@@ -691,8 +691,15 @@ func C12(c *core.Ctx) {
 		{sessCfg{"bac", []int{2, 11}, "rsa", true, true, "genuine"}, sessOpt{false, false, "mrz"}},
 		{sessCfg{"cam+bac", []int{}, "ecdsa", true, true, "genuine"}, sessOpt{false, false, "mrz"}},
 		{sessCfg{"bac", []int{}, "none", true, true, "genuine"}, sessOpt{false, false, "mrz"}}, // CA is run (and leaves evidence) only when nothing else authenticated the chip
+		{sessCfg{"bac", []int{}, "none", true, true, "genuine"}, sessOpt{false, false, "mrz"}}, // the same with the other counter width (3DES / AES)
 	} {
 		v := randomVariety(rand.New(rand.NewSource(c.Seed + int64(i))))
+		if i == 2 {
+			v.CaOID = chipsim.OIDCaEcdh3Des
+		}
+		if i == 3 {
+			v.CaOID = chipsim.OIDCaEcdhAes128
+		}
 		v.Transport = chipsim.Transport{ExtendedLength: true, AllowOversizeShortResponse: true, LengthErrorKeepsSession: true}
 		v.MaxLe, v.AaBits, v.DG13Size = 256, 1024, 0
 		p, err := personalise(m.cfg, v)
@@ -1091,7 +1098,10 @@ func c12Evidence(c *core.Ctx, x *c12ctx, lives []sessOutcome) {
 			add("field-absent/"+nm, func(d *document.DocumentEx) { *fields(d)[nm] = nil })
 			add("field-empty/"+nm, func(d *document.DocumentEx) { *fields(d)[nm] = []byte{} })
 			add("field-oversized/"+nm, func(d *document.DocumentEx) { *fields(d)[nm] = big })
-			add("counter-oversized/"+nm, func(d *document.DocumentEx) { *fields(d)[nm] = bytes.Repeat([]byte{0xFF}, 17) })
+			for _, n := range []int{9, 12, 16, 17} { // between the 8-octet and the 16-octet counter, and beyond
+				nn := n
+				add(fmt.Sprintf("counter-oversized-%d/%s", nn, nm), func(d *document.DocumentEx) { *fields(d)[nm] = bytes.Repeat([]byte{0xFF}, nn) })
+			}
 			add("field-one-octet/"+nm, func(d *document.DocumentEx) { *fields(d)[nm] = []byte{0x00} })
 		}
 		add("oid-empty/aa", func(d *document.DocumentEx) {
